@@ -697,6 +697,12 @@ func evalBin(e *ex.E, s *Scope) Res {
 		if (controlling(l) && bad(r)) || (controlling(r) && bad(l)) {
 			return unspec("short-circuit with an invalid other operand")
 		}
+		if l.U || r.U {
+			// an operand with an unspecified outcome may turn out to be the
+			// controlling value, which decides whether the other operand's
+			// error is reported
+			return unspec("logical operator over an operand with unspecified outcome")
+		}
 	}
 	c, ok := combine(l, r)
 	if !ok {
